@@ -19,7 +19,25 @@ theorem ckk_sound (p : List Nat) (ws : List Int) (tol : Int) (ids : List Nat)
     (h : run {} p ws tol = .ok ids) :
     ids.length = ws.length ∧ (∀ i ∈ ids, i ≤ 1) ∧
       (load ws ids 0 - load ws ids 1).natAbs ≤ tol := by
-  sorry
+  have hlen : ws.length = p.length := by
+    refine Classical.byContradiction fun hne' => ?_
+    simp [run, hne'] at h
+  rw [run_eq_of_len hlen hne] at h
+  split at h
+  · simp at h
+  · simp at h
+  · next q hrec =>
+    have hq : q = ids := by simpa using h
+    subst hq
+    obtain ⟨q', hun, hl, hasg, hlo, hhi⟩ :=
+      rec_sound {} rfl _ p _ tol [] q (sorted_sortDesc _) (init_nonneg ws hnn) (init_nodup ws)
+        (fun x hx => hlen ▸ init_id_lt ws x hx) hrec
+    have hqq : q' = q := by simpa [unwind_nil] using hun
+    subst hqq
+    have hl' : q'.length = ws.length := by omega
+    have h01 := init_asg_le_one ws q' hl' hasg
+    rw [ssum_sortDesc, ssum_sg_zipIdx ws q' hl' h01] at hlo hhi
+    exact ⟨hl', h01, by omega⟩
 
 /-- Completeness: `NotFound` only if no two-way partition meets the bound. -/
 theorem ckk_complete (p : List Nat) (ws : List Int) (tol : Int)
@@ -27,20 +45,48 @@ theorem ckk_complete (p : List Nat) (ws : List Int) (tol : Int)
     (h : run {} p ws tol = .notFound) :
     ∀ ids : List Nat, ids.length = ws.length → (∀ i ∈ ids, i ≤ 1) →
       tol < (load ws ids 0 - load ws ids 1).natAbs := by
-  sorry
+  have hlen : ws.length = p.length := by
+    refine Classical.byContradiction fun hne' => ?_
+    simp [run, hne'] at h
+  have hne : ws ≠ [] := by
+    intro he
+    subst he
+    simp [run, ← hlen] at h
+  rw [run_eq_of_len hlen hne] at h
+  intro ids hl h01
+  split at h
+  · simp at h
+  · next hrec =>
+    have := rec_complete _ _ _ _ _ _ hrec (sg ids) (fun i => sgn_cases _)
+    rw [ssum_sortDesc, ssum_sg_zipIdx ws ids hl h01] at this
+    exact this
+  · simp at h
 
 /-- Totality: with matching lengths the model never aborts – no panic site is
 reached (`unwrap` on `pop`, slice indexing and `1 - partition[a]` in
 `ckk_bipart_build`) and `fuel = ws.length` suffices (termination). -/
 theorem ckk_total (p : List Nat) (ws : List Int) (tol : Int) :
     run {} p ws tol ≠ .abort := by
-  sorry
+  by_cases hlen : ws.length = p.length
+  · by_cases hne : ws = []
+    · subst hne
+      simp only [run]
+      split
+      · simp
+      · simp
+    · rw [run_eq_of_len hlen hne]
+      have := run_rec_ne_none {} p ws tol hlen hne
+      split
+      · next hnone => exact absurd hnone this
+      · simp
+      · simp
+  · simp [run, hlen]
 
 /-- The empty input returns `Ok` and leaves the (empty) array alone; a length
 mismatch is reported before anything is written. -/
 theorem ckk_len_mismatch (p : List Nat) (ws : List Int) (tol : Int)
     (h : ws.length ≠ p.length) : run {} p ws tol = .lenMismatch := by
-  sorry
+  simp [run, h]
 
 /-- Regression witness of defect D1 (pinned upstream code recorded
 `separate: true` in the *sum* branch): on `[3,3,2,2,2]` with tolerance 0 that
@@ -48,7 +94,7 @@ model answers `Ok` with loads 9 / 3. -/
 theorem ckk_unsound_before_fix :
     run { sumSeparate := true } [9,9,9,9,9] [3,3,2,2,2] 0 = .ok [0,1,0,0,0] ∧
     load [3,3,2,2,2] [0,1,0,0,0] 0 = 9 ∧ load [3,3,2,2,2] [0,1,0,0,0] 1 = 3 := by
-  sorry
+  decide
 
 /-- Non-vacuity: the hypotheses of `ckk_sound`/`ckk_complete` are met by
 concrete non-trivial inputs, one of each outcome. -/
